@@ -109,6 +109,26 @@ Fixpoint ch_loop (fuel : nat) (s : stream) (buf : nat) (maxb : option nat)
 Definition body_read_chunked (s : stream) (buf : nat) (maxb : option nat) : bres :=
   ch_loop (S (length (rest s))) s buf maxb [] false.
 
+(* ---- the glue of BodyMixin._body (body_mixin.py:254) ----
+     chunked        = 'chunked' in environ.get('HTTP_TRANSFER_ENCODING', '').lower()     (body_mixin.py:127)
+     content_length = int(environ.get('CONTENT_LENGTH') or -1)                           (body_mixin.py:112)
+     _body_read(read, max_memfile_size, content_length=.., chunked=.., max_body_size=..)
+   and _body_read picks _iter_chunked whenever chunked is true, whatever the
+   Content-Length says (body_mixin.py:84).  [te] is the header value (absent = []),
+   [cl] the integer content_length (absent / empty = -1).  ASCII lower-casing:
+   WSGI header values are latin-1 and "chunked" is ASCII. *)
+Definition s_chunked : list N := [99; 104; 117; 110; 107; 101; 100]%N.
+
+Definition te_chunked (te : list N) : bool :=
+  match findb s_chunked (lower te) with
+  | Some _ => true
+  | None => false
+  end.
+
+Definition body_read_env (s : stream) (buf : nat) (maxb : option nat) (cl : Z) (te : list N) : bres :=
+  if te_chunked te then body_read_chunked s buf maxb
+  else body_read_cl s buf maxb cl.
+
 (* ---- the specification side: legal chunked encodings ---- *)
 
 Definition CRLF : list N := [13; 10]%N.
@@ -157,7 +177,8 @@ Definition payload_of (cs : list chunk) : list N := flat_map c_data cs.
 (* ---- correspondence interface ---- *)
 
 (* input: 0 ; buf ; has_max ; max ; data (len-prefixed) ; sched (len-prefixed)   -> bres
-          1 ; bytes (len-prefixed)                                               -> int(b.strip(),16) *)
+          1 ; bytes (len-prefixed)                                               -> int(b.strip(),16)
+          2 ; cl ; buf ; has_max ; max ; te ; data ; sched                       -> bres through the _body glue *)
 Definition corr_C05 (inp : list Z) : list Z :=
   match inp with
   | 0%Z :: buf :: hm :: mx :: r =>
@@ -174,6 +195,21 @@ Definition corr_C05 (inp : list Z) : list Z :=
   | 1%Z :: r =>
     match dec_str r with
     | Some (b, _) => enc_option (fun z => [z]) (py_int_hex b)
+    | None => bad_input
+    end
+  | 2%Z :: cl :: buf :: hm :: mx :: r =>
+    match dec_str r with
+    | Some (te, r0) =>
+      match dec_str r0 with
+      | Some (data, r1) =>
+        match dec_list dec_nat_item r1 with
+        | Some (sc, _) =>
+          let maxb := if Z.eqb hm 0 then None else Some (Z.to_nat mx) in
+          enc_bres (body_read_env (stream_init data sc) (Z.to_nat buf) maxb cl te)
+        | None => bad_input
+        end
+      | None => bad_input
+      end
     | None => bad_input
     end
   | _ => bad_input
